@@ -528,6 +528,7 @@ def window(chars, x0, width):
     parts = []  # (bytes, group) group None = mandatory
     c = 0
     after_cut = False
+    full = False  # a character of positive width is shown in full
     for chunk, w in chars:
         if w == 0:
             if c < x0 or c > x1:
@@ -539,7 +540,7 @@ def window(chars, x0, width):
             elif after_cut:
                 parts.append((chunk, "C"))
             else:
-                parts.append((chunk, None))
+                parts.append((chunk, "Z"))
             continue
         s, e = c, c + w
         c = e
@@ -548,11 +549,17 @@ def window(chars, x0, width):
             continue
         if s >= x0 and e <= x1:
             parts.append((chunk, None))
+            full = True
         else:
             parts.append((b" " * (min(e, x1) - max(s, x0)), None))
             after_cut = True
     if c < x1:
         parts.append((b" " * (x1 - max(c, x0)), None))
+    if full:
+        # zero-width characters inside the window ride on a displayed character: mandatory.  When the window
+        # shows no whole character (only halves of cut double-width characters, replaced by spaces) the
+        # visible stretch is "made solely of zero-width characters" and may be omitted (weaker reading).
+        parts = [(p, None if g == "Z" else g) for p, g in parts]
     groups = sorted({g for _, g in parts if g})
     out = []
     for keep in itertools.product((True, False), repeat=len(groups)):
